@@ -14,6 +14,7 @@ ASSUMPTIONS = ["rotations given as zxz Euler triples of arbitrary angles (every 
                "lemmas proved by the solver from hints in the same run and then instantiated (coverage.lemmas): quaternion/trace identity, Cauchy-Schwarz and the Gram determinant for unit quaternions, orthogonality of Euler matrices"]
 OUTSIDE = ["c_symmetry > 1 branches (np.mod on angle values)",
            "in-plane distance 'vanishes for equal orientations' is decided for the same rotation object / same Euler triple (as_euler is a function), not for two different triples of one rotation"]
+WITNESS_ONLY = ["float-only: equal rotations written with phi / phi+360 (opposite-sign quaternions) have distance 0 and never NaN - evaluated by the concrete run on the 45-degree Euler lattice (h_angular_equal); over the reals the clause is implied by zero_for_equal_rotations"]
 BOUNDS = {"quick": {"batch": "1..2"}, "thorough": {"batch": "1..3"}}
 EXPECTED_EXCEPTIONS = ()
 OPTS = {"qtimeout": 6.0, "otimeout": 40.0}
@@ -179,6 +180,14 @@ def h_angular_equal(env):
     t = _tri(env, "a")
     ang, dist = g.angular_distance(_arr(env, [t]), _arr(env, [t]))
     env.check("zero_for_equal_rotations", env.eq(ang[0], 0.0) if env.mode == "sym" else abs(float(ang[0])) < 1e-5)
+    if env.mode == "conc":
+        # float-only clause (over the reals |<q,q>| = 1 exactly): the same rotation written with phi and phi+360, or as the
+        # negated quaternion, must give 0 and never NaN.  Evaluated by the concrete run on the 45-degree Euler lattice.
+        lat = np.array([[a, b, c] for a in range(-180, 180, 45) for b in range(0, 181, 45) for c in range(-180, 180, 45)], dtype=float)
+        for shift in ([360.0, 0.0, 0.0], [0.0, 0.0, -360.0], [0.0, 0.0, 0.0]):
+            a2, _ = g.angular_distance(lat, lat + np.array(shift))
+            a2 = np.asarray(a2, dtype=float)
+            env.check("lattice_equal_rotations_finite_and_zero", bool(np.all(np.isfinite(a2)) and np.all(np.abs(a2) < 1e-4)))
 
 
 def h_angular_symmetric(env):
